@@ -74,6 +74,11 @@ func (*c03) Corpus() []any {
 	out = append(out, hist(inst, &w))
 	out = append(out, hist(withK(c12Op("install", 1, eng.Flags{Atomic: true}, c03Hooks, "a", "b"), "create", "ConfigMap/b")))
 	out = append(out, hist(inst, withK(c12Op("upgrade", 2, eng.Flags{Cleanup: true}, nil, "a", "c", "d"), "create", "ConfigMap/d")))
+	// the witness of C03_atomic_upgrade: install {a,b}; upgrade --atomic --no-hooks to {a',b',c} with PATCH b rejected => restored
+	out = append(out, hist(ab(eng.Flags{}), withK(c12Op("upgrade", 2, eng.Flags{Atomic: true, NoHooks: true}, nil, "a", "b", "c"), "patch", "ConfigMap/b")))
+	// ... and of C03_atomic_install_any_history: a failed install left 1:failed and a; install --replace --atomic {a',b}, CREATE b rejected
+	out = append(out, hist(withK(c12Op("install", 1, eng.Flags{}, nil, "a", "c"), "create", "ConfigMap/c"),
+		withK(c12Op("install", 2, eng.Flags{Atomic: true, Replace: true}, nil, "a", "b"), "create", "ConfigMap/b")))
 	// rollback (excluded from "previous stays deployed"): PATCH a rejected => 1:superseded 2:superseded 3:failed
 	out = append(out, hist(c12Op("install", 1, eng.Flags{}, nil, "a"), c12Op("upgrade", 2, eng.Flags{}, nil, "a"),
 		withK(c12Op("rollback", 0, eng.Flags{}, nil), "patch", "ConfigMap/a")))
